@@ -397,6 +397,62 @@ def check_templates(run, ix):
                            '(transformed x ~ 0), which prints as "0" and yields formulas such as log(1/0)'))
 
 
+def check_norm_exit(run, ix):
+    """Q-R7.  pslq gives up (returns None) once a lower bound `norm` on the size of any remaining relation reaches
+    maxcoeff.  The bound 1/max|H| holds for the EUCLIDEAN norm of a relation, while maxcoeff limits its LARGEST
+    coefficient; a relation with n coefficients just below maxcoeff has Euclidean norm up to sqrt(n)*maxcoeff.  The
+    bound must therefore be reduced by a factor >= sqrt(n) (the code divides by 100, enough for n <= 10^4) before
+    it is compared with maxcoeff -- otherwise existing admissible relations are declared impossible."""
+    f = ix.func(IDENT, 'pslq')
+    exits = [x for x in _walk_own(f.node) if isinstance(x, ast.If) and len(x.body) == 1 and
+             isinstance(x.body[0], ast.Break) and isinstance(x.test, ast.Compare) and
+             norm(x.test.comparators[0]) == 'maxcoeff' and isinstance(x.test.ops[0], (ast.GtE, ast.Gt))]
+    if len(exits) != 1:
+        raise AnalysisError('pslq: norm-bound exit not found')
+    ex = exits[0]
+    bound = norm(ex.test.left)
+    margin = 1
+    for x in _walk_own(f.node):
+        if isinstance(x, ast.AugAssign) and norm(x.target) == bound and x.lineno < ex.lineno:
+            if isinstance(x.op, (ast.FloorDiv, ast.Div)) and isinstance(x.value, ast.Constant):
+                margin *= x.value.value
+            elif isinstance(x.op, ast.RShift) and isinstance(x.value, ast.Constant):
+                margin *= 2 ** x.value.value
+            elif isinstance(x.op, (ast.FloorDiv, ast.Div)) and 'n' in {n_.id for n_ in ast.walk(x.value) if isinstance(n_, ast.Name)}:
+                margin = float('inf')
+    if margin >= 10:
+        run.ok('Q-R7', 'norm bound reduced by %s before the comparison with maxcoeff (covers sqrt(n) for n <= %s)'
+               % (margin, margin * margin if margin != float('inf') else 'any'))
+    else:
+        run.fail(F('Q-R7', 'pslq', ex, 'the Euclidean lower bound `%s` is compared with the max-coefficient limit without '
+                   'a margin >= sqrt(n) (found factor %s): relations with several coefficients near maxcoeff exist '
+                   'although pslq reports that none can' % (bound, margin)))
+
+
+def check_self_delegation(run, ix):
+    """Q-R8.  identify(x) for x < 0 calls itself on -x.  The recursive call must forward every option of the
+    caller (constants, tol, maxcoeff, full, verbose): a dropped `tol` silently searches with the default tolerance
+    and returns -(...) formulas that miss x by far more than the caller allowed."""
+    for name in ('identify', 'findpoly', 'pslq'):
+        f = ix.func(IDENT, name)
+        params = f.params[1:]          # without ctx
+        for c in _walk_own(f.node):
+            if isinstance(c, ast.Call) and norm(c.func) == 'ctx.%s' % name:
+                given = {}
+                for i, a in enumerate(c.args):
+                    if i < len(params):
+                        given[params[i]] = a
+                for k in c.keywords:
+                    if k.arg:
+                        given[k.arg] = k.value
+                missing = [p for p in params[1:] if not (p in given and isinstance(given[p], ast.Name) and given[p].id == p)]
+                if missing:
+                    run.fail(F('Q-R8', name, c, 'the recursive call does not forward %s of the caller: the recursion runs '
+                               'with the default instead of what the caller asked for' % missing))
+                else:
+                    run.ok('Q-R8', '%s: recursive call forwards %s' % (name, params[1:]))
+
+
 def run(run, ix, tier):
     run.explanation = (
         'pslq, findpoly and identify promise properties of what they RETURN (bounded integer coefficients, '
@@ -417,3 +473,7 @@ def run(run, ix, tier):
     run.rule('Q-R5', floor=2)
     run.rule('Q-R6', floor=1)
     check_templates(run, ix)
+    run.rule('Q-R7', floor=1)
+    run.rule('Q-R8', floor=1)
+    check_norm_exit(run, ix)
+    check_self_delegation(run, ix)
